@@ -278,7 +278,7 @@ def run_tcp(case, stats):
     results = {}
     logs = {}
     for impl in ("sync", "async"):
-        sim = simdev.SimDevice(rng=gen.rng_for("C16tcp", case["seed"]), maxdata=case["maxdata"], remote_ids="random")
+        sim = simdev.SimDevice(rng=gen.rng_for("C16tcp", case["seed"]), maxdata=case["maxdata"], remote_ids="small")     # (a counter: no random numbers, see below)
         sim.scripts[b"shell:hello"] = [b"hel", "lo €".encode()]
         sim.scripts[b"exec:bin"] = [bytes(range(256)), b"\xff\xfe"]
         sim.sync_plan.files[b"/t/src"] = scen.blob(case["seed"] + "src", 150000)
